@@ -80,16 +80,17 @@ class Run:
     # ---------------------------------------------------------------- build
     def vdrv(self, tags="verif", sched=False):
         """Builds the harness binary against /repo's current working tree (go's content-addressed cache keeps this cheap)."""
-        if self._vdrv:
+        if self._vdrv and (not sched or getattr(self, "_sched", False)):
             return self._vdrv
-        out = os.path.join(self.work, "vdrv")
+        self._sched = sched
+        out = os.path.join(self.work, "vdrv" + ("-sched" if sched else ""))
         t = time.time()
         # 1. overlay generator (instruments copies of /repo's current files; /repo itself is never touched)
         vin = os.path.join(self.work, "vinstr")
         p = subprocess.run(["go", "build", "-o", vin, "./cmd/vinstr"], cwd=HARNESS, env=GOENV, capture_output=True, text=True)
         if p.returncode != 0:
             raise Infra("vinstr build failed:\n" + p.stdout + p.stderr)
-        ovd = os.path.join(self.work, "overlay")
+        ovd = os.path.join(self.work, "overlay" + ("-sched" if sched else ""))
         p = subprocess.run([vin, "-repo", REPO, "-out", ovd] + (["-sched"] if sched else []), capture_output=True, text=True)
         if p.returncode != 0:
             raise Infra("vinstr failed on current /repo tree:\n" + p.stdout + p.stderr)
@@ -105,7 +106,7 @@ class Run:
     def gobin(self, name, tags="verif"):
         """Builds harness/cmd/<name> (a stand-alone driver binary) against /repo's current tree (with the clock overlay)."""
         self.vdrv()  # makes sure the overlay exists
-        out = os.path.join(self.work, name)
+        out = os.path.join(self.work, name + ("-sched" if getattr(self, "_sched", False) else ""))
         if os.path.exists(out):
             return out
         p = subprocess.run(["go", "build", "-overlay", self.overlay, "-tags", tags, "-o", out, "./cmd/" + name],
